@@ -1,6 +1,6 @@
 (* Proofs/FormatCrlfLinkProofs.v — C09 clause 3 for the composed model with the lexer link discharged:
    the hypothesis `lex_crlf_commutes` of FormatCrlfProofs.format_crlf_input follows from a condition on the scan of the LF text
-   (LexerCrlfProofs.lex_crlf): no token text contains a LF or a CR, every block comment and directive has its closing delimiter. *)
+   (LexerCrlfProofs.lex_crlf): no token text contains a LF or a CR, every directive has its closing delimiter. *)
 From PasfmtVerif Require Import Proofs.LexerCrlfProofs.
 From PasfmtVerif Require Import Model.Format Proofs.FormatProofs Proofs.FmtDataProofs Proofs.FormatCrlfProofs.
 
